@@ -670,6 +670,36 @@ theorem caddyfile_client_auth_site_bound (sites : List Site) (cfg : Option Bool)
     exact hnames x hx
   · simp [List.getElem?_map, hk]
 
+/-- the same for EVERY site shape the TLS side can express (exact name or left-most wildcard, e.g.
+    `*.example.com { tls { client_auth … } }`): the site's own client-auth policy is in the server's
+    policy list and accepts the connection on which the request arrived. -/
+theorem caddyfile_site_policy_accepts (sites : List Site) (cfg : Option Bool) (sni host name : Bytes)
+    (v : Nat → Bool) (k : Nat) (conf : CAConf) (b : Built)
+    (hcfg : cfg ≠ some false)
+    (hk : sites[k]? = some (name, some conf))
+    (hb : provisionPolicyCA (some conf) = some b) (hreq : b.bits.auth ≠ .noClientCert)
+    (hsni : noBrackets sni = true) (hok : isAscii name = true)
+    (hshape : noStar name = true ∨ leftmostWildcard name = true)
+    (hs : serve (effectiveStrict cfg ((adaptPolicies sites).map (·.1))) (sites.map (·.1)) (some sni) host
+            = .handler (some k)) :
+    ∃ p ∈ (adaptPolicies sites).map (·.1), p.clientAuth = true ∧ p.matches ⟨sni, v⟩ = true := by
+  have hact : activeBefore (some conf) = true := (active_iff_requests_client_cert _ _ hb).mpr hreq
+  have hmem : (name, some conf) ∈ sites := List.mem_of_getElem? hk
+  have hpol : (⟨[.sni [name]], false, activeBefore (some conf)⟩ : Policy) ∈ (adaptPolicies sites).map (·.1) := by
+    refine List.mem_map.mpr ⟨(⟨[.sni [name]], false, activeBefore (some conf)⟩, some conf), ?_, rfl⟩
+    unfold adaptPolicies
+    exact List.mem_append_left _ (List.mem_filterMap.mpr ⟨(name, some conf), hmem, rfl⟩)
+  have hstrict : effectiveStrict cfg ((adaptPolicies sites).map (·.1)) = true := by
+    cases cfg with
+    | some bb => cases bb with
+      | true => rfl
+      | false => exact absurd rfl hcfg
+    | none => exact (strict_auto_enabled_iff none _).mpr (Or.inr ⟨rfl, _, hpol, hact⟩)
+  rw [hstrict] at hs
+  refine ⟨_, hpol, hact, ?_⟩
+  exact site_policy_accepts_connection (sites.map (·.1)) sni host name k v false _ hsni
+    (by simp [List.getElem?_map, hk]) hok hshape hs
+
 /-! ## non-vacuity: concrete, kernel-evaluated instances of the hypotheses -/
 
 -- client_authentication blocks: verifier only / CA file that fails to load / unknown mode / ca + certs
